@@ -37,24 +37,35 @@ def composite {σ β : Type} (step : σ → β → Option (σ × Out)) (s : σ) 
     | some (s1, o) =>
       rest.foldl (fun acc l => acc.bind (fun (s, o) => (step s l).map (fun (s', o') => (s', if o = .none then o' else o)))) (some (s1, o))
 
-def runOps {σ β : Type} (step : σ → β → Option (σ × Out)) (obs : σ → String) (parse : String → Option β)
-    (s : σ) (ops : List String) : String :=
+def runOps {σ β : Type} (step : σ → β → Option (σ × Out)) (obs : σ → String) (parse1 : String → Option β)
+    (s : σ) (ops : List String) (mac : String → Option (List β) := fun _ => none) : String :=
+  -- a part of a composite operation is one label, or a macro that stands for a list of labels
+  let parse : String → Option (List β) := fun t => match mac t with
+    | some ls => some ls
+    | none => (parse1 t).map (fun l => [l])
   let rec go (s : σ) (ops : List String) (acc : List String) : String :=
     match ops with
     | [] => ";".intercalate acc.reverse
     | op :: rest =>
       match (op.splitOn "+").mapM parse with
       | none => "bad-op"
-      | some ls =>
-        match composite step s ls with
+      | some lss =>
+        match composite step s (lss.foldr (· ++ ·) []) with
         | none => ";".intercalate (("not-enabled@" ++ op) :: acc).reverse
         | some (s', o) => go s' rest ((showOut o ++ ":" ++ obs s') :: acc)
   go s ops []
 
+/-- `fill:N`: N queries one after the other, each reserved, sent, answered and returned
+before the next one (the 16-bit wire id counter of the real connection advances by N or more) -/
+def tfill? (t : String) : Option (List TLabel) :=
+  match t.splitOn ":" with
+  | ["fill", n] => n.toNat?.map (fun n => (List.replicate n [TLabel.reserve, .enter true, .reply, .exit0]).foldr (· ++ ·) [])
+  | _ => none
+
 def handle : List String → String
   | ["tdc", max, ops] =>
     match max.toNat? with
-    | some m => runOps Tdc.step (fun s => toString s.free) tlabel? (Tdc.init m) (ops.splitOn ",")
+    | some m => runOps Tdc.step (fun s => toString s.free) tlabel? (Tdc.init m) (ops.splitOn ",") tfill?
     | none => "bad-op"
   | ["lazy", max, ops] =>
     match max.toNat? with
